@@ -1,9 +1,9 @@
 #!/bin/sh
 # usage: tools/eval_seeded3.sh <file-key> <variant>  (round 3: properties to check are read from property.txt)
 K="$1"; V="$2"
-WT="/tmp/w3_$K"; S="$WT/_seeded/$V"
+WT="/tmp/${WTP:-w3}_$K"; S="$WT/_seeded/$V"
 VERIF="$(cd "$(dirname "$0")/.." && pwd)"
-NAME="seed3_${K}_$V"
+NAME="seed${RND:-3}_${K}_$V"
 PROPS=$(tr -c 'C0-9 \n' ' ' < "$S/property.txt" | tr ' ' '\n' | grep -E '^C[0-9]{2}$' | head -4 | tr '\n' ' ')
 git -C "$WT" checkout -q -- .
 D0=$(cd "$WT" && PYTHONPATH="$WT" timeout 600 /venv/bin/python "$S/demo.py" >/dev/null 2>&1; echo $?)
